@@ -17,4 +17,20 @@ unsigned g_n;
 #define F_GOK (g_v != 0)
 #define F_HASREV 1
 #include "scalar/split_family.h"
+
+static inline uint8_t sfnz_len_(uint64_t v) { uint8_t n; varintSplitFullNoZeroLength_(n, v); return n; }
+W_REL0(w_splitfullnozeroConstants, {
+    return sfnz_len_(VARINT_SPLIT_FULL_NO_ZERO_STORAGE_1) == 1 && sfnz_len_(VARINT_SPLIT_FULL_NO_ZERO_STORAGE_1 + 1ULL) == 2 &&
+           sfnz_len_(VARINT_SPLIT_FULL_NO_ZERO_STORAGE_2) == 2 && sfnz_len_(VARINT_SPLIT_FULL_NO_ZERO_STORAGE_2 + 1ULL) == 3 &&
+           sfnz_len_(VARINT_SPLIT_FULL_NO_ZERO_STORAGE_3) == 3 &&
+           sfnz_len_(VARINT_SPLIT_FULL_NO_ZERO_STORAGE_4) == 4 && sfnz_len_(VARINT_SPLIT_FULL_NO_ZERO_STORAGE_4 + 1ULL) == 5 &&
+           sfnz_len_(VARINT_SPLIT_FULL_NO_ZERO_STORAGE_5) == 5 && sfnz_len_(VARINT_SPLIT_FULL_NO_ZERO_STORAGE_5 + 1ULL) == 6 &&
+           sfnz_len_(VARINT_SPLIT_FULL_NO_ZERO_STORAGE_6) == 6 && sfnz_len_(VARINT_SPLIT_FULL_NO_ZERO_STORAGE_6 + 1ULL) == 7 &&
+           sfnz_len_(VARINT_SPLIT_FULL_NO_ZERO_STORAGE_7) == 7 && sfnz_len_(VARINT_SPLIT_FULL_NO_ZERO_STORAGE_7 + 1ULL) == 8 &&
+           sfnz_len_(VARINT_SPLIT_FULL_NO_ZERO_STORAGE_8) == 8 && sfnz_len_(VARINT_SPLIT_FULL_NO_ZERO_STORAGE_8 + 1ULL) == 9 &&
+           sfnz_len_(VARINT_SPLIT_FULL_NO_ZERO_STORAGE_9) == 9 &&
+           VARINT_SPLIT_FULL_NO_ZERO_STORAGE_1 == 64 && VARINT_SPLIT_FULL_NO_ZERO_STORAGE_2 == 16447 && VARINT_SPLIT_FULL_NO_ZERO_STORAGE_3 == 4210750;
+})
+H_REL0(H_splitfullnozeroConstants, w_splitfullnozeroConstants)
+
 RP_MAIN()
